@@ -588,7 +588,12 @@ class RankEnv:
         if self.twin is not None:
             self.twin.load_state_dict(model.state_dict())
         # ---- optional boundary monitors (all legal user calls)
-        if self.mon.get('read_factors') or op.get('read_factors'):
+        # reading the factors awaits their futures (a legal user call, but
+        # also an observer effect that can hide a missing wait), so even
+        # when the monitor is on it skips about a third of the boundaries
+        if (self.mon.get('read_factors') and models._mix(
+                plan['data_seed'], it, 7) % 100 < 67) or op.get(
+                    'read_factors'):
             rec['factors'] = self._read_factors()
         if self.mon.get('memory') and not self.emulate:
             self._memory_monitor(rec)
